@@ -249,6 +249,7 @@ ASSUMPTIONS = [
 ]
 
 MUTANTS = [
+    dict(file=CL, func="MaxRateClassifier.rates@setter", old="        # rates are assigned directly\n        self.rates_.data = value", new="        if torch.equal(value, self.rates_.data):\n            return\n        # rates are assigned directly\n        self.rates_.data = value", contracts=["MaxRateClassifier[derived_buffers]"], name="seed C12e: setter returns early when the rates are unchanged (load hook no longer rebuilds the derived buffers)"),
     dict(file=INF, func="Module.set_extra_state", old="self._extras.update(state)", new="self._extras.update((k, v) for k, v in state.items() if v or k not in self._extras)", contracts=["Module.extras"], name="seed C12: falsy loaded extras do not overwrite"),
     dict(file=INF, func="RecordTensor.value@setter", old='f"_{self.name}_pointer"', new='f"_{self.__name}_pointer"', contracts=["RecordTensor.value@setter"], name="D3 regression: mangled base-class attribute"),
     dict(file="inferno/neural/neurons/mixins.py", func="VoltageMixin.__init__", old="persist_data=True,", new="persist_data=False,", contracts=["LIF[frame]", "QIF[frame]"]),
